@@ -673,6 +673,11 @@ func (fv *FuncVer) applyContract(st *State, ins ssa.Instruction, blk *Block, ful
 		}
 	}
 	for _, cl := range blk.ClausesOf("ensures") {
+		// postconditions about the callee's own call events are proved inside the callee; they
+		// say nothing about the caller's path and must not be assumed here
+		if mentionsEvents(cl.Expr, fv.eng) {
+			continue
+		}
 		st.assume(fv.evalBool(post, cl.Expr))
 	}
 	// memory the callee lends to the caller: the caller must not write through it
@@ -884,4 +889,33 @@ func (fv *FuncVer) pointeeKey(v SVal) string {
 	}
 	fv.pointees[id] = pointee{hk, ref, et}
 	return id
+}
+
+
+var eventBuiltins = map[string]bool{"called": true, "calledOK": true, "mayHaveCalled": true, "callarg": true, "callres": true, "ncalls": true, "calledBefore": true}
+
+// mentionsEvents: does the expression (after expanding predicates) talk about call events?
+func mentionsEvents(e *SExpr, eng *Engine) bool {
+	if e == nil {
+		return false
+	}
+	if e.Op == "call" && len(e.Args) > 0 && e.Args[0].Op == "ident" {
+		if eventBuiltins[e.Args[0].Name] {
+			return true
+		}
+		if p, ok := eng.preds[e.Args[0].Name]; ok && mentionsEvents(p.Body, eng) {
+			return true
+		}
+	}
+	for _, a := range e.Args {
+		if mentionsEvents(a, eng) {
+			return true
+		}
+	}
+	for _, a := range e.Pats {
+		if mentionsEvents(a, eng) {
+			return true
+		}
+	}
+	return false
 }
